@@ -84,30 +84,52 @@ def fabricate(c):
     return datas
 
 
-def real_perm_data(c, model, block):
-    """run the real caching part of the SeqPAM workflow on a Compiler"""
+class RuntimeStartError(Exception):
+    pass
+
+
+def real_perm_data_batch(jobs, lock_wait_s):
+    """jobs: list of (circuit, model).  Runs the real caching part of the SeqPAM workflow
+    ([SetModelPass, ForEachBlockPass(EmbedAllPermutationsPass(QSearch))]) for all jobs on ONE
+    bqskit runtime.  The machine-wide runtime lock (/work/RUNTIME_LOCK.md) is held for the
+    whole lifetime of the runtime and for nothing else.  Returns a list of
+    (partitioned circuit, block datas) or raises RuntimeStartError."""
+    import fcntl
+    import signal
+    import socket
+    import subprocess
+    import sys
+    import time
     from bqskit.compiler import Compiler, Workflow
     from bqskit.passes import (
         EmbedAllPermutationsPass, ForEachBlockPass, QSearchSynthesisPass, SetModelPass,
     )
     qs = QSearchSynthesisPass(success_threshold=1e-14)
-    wf = Workflow([
+    wfs = [Workflow([
         SetModelPass(model),
         ForEachBlockPass(EmbedAllPermutationsPass(
             inner_synthesis=qs, input_perm=True, output_perm=True, vary_topology=False)),
-    ])
-    import signal
-    import socket
-    import subprocess
-    import sys
-    last = None
+    ]) for _, model in jobs]
 
     def on_alarm(signum, frame):
         raise TimeoutError('bqskit runtime did not answer in time')
-    for _ in range(2):
-        # `Compiler(port=...)` starts its attached server on the DEFAULT port whatever `port`
-        # says (and then waits for ever); the default ports are shared with every other user
-        # of this machine.  Start the attached server ourselves on free ports and connect.
+    lockf = open('/tmp/bqskit_runtime.lock', 'w')
+    t0 = time.time()
+    while True:
+        try:
+            fcntl.flock(lockf, fcntl.LOCK_EX | fcntl.LOCK_NB)
+            break
+        except OSError:
+            if time.time() - t0 > lock_wait_s:
+                lockf.close()
+                raise RuntimeStartError('machine-wide bqskit runtime lock busy for '
+                                        f'{lock_wait_s} s')
+            time.sleep(0.5)
+    proc = comp = None
+    old = signal.signal(signal.SIGALRM, on_alarm)
+    try:
+        # the attached server is started on free ports (the client port of `Compiler()` itself
+        # is not configurable), then used like a detached one
         ports = []
         for _k in range(2):
             sk = socket.socket()
@@ -118,40 +140,51 @@ def real_perm_data(c, model, block):
                   f'start_attached_server(3, port={ports[0]}, worker_port={ports[1]})')
         proc = subprocess.Popen([sys.executable, '-W', 'ignore', '-c', launch],
                                 stdout=subprocess.DEVNULL, stderr=subprocess.DEVNULL)
-        old = signal.signal(signal.SIGALRM, on_alarm)
-        signal.alarm(170)
-        comp = None
+        signal.alarm(120 + 60 * len(jobs))
+        comp = Compiler('localhost', ports[0])
+        out = []
+        for (c, _), wf in zip(jobs, wfs):
+            oc, data = comp.compile(c, wf, request_data=True)
+            out.append((oc, data[ForEachBlockPass.key][-1]))
+        return out
+    except (RuntimeError, OSError, ConnectionError, TimeoutError, EOFError, KeyError) as e:
+        raise RuntimeStartError(f'{type(e).__name__}: {e}')
+    finally:
+        signal.alarm(0)
+        signal.signal(signal.SIGALRM, old)
         try:
-            comp = Compiler('localhost', ports[0])
-            out, data = comp.compile(c, wf, request_data=True)
-            signal.alarm(0)
-            return out, data[ForEachBlockPass.key][-1]
-        except TimeoutError as e:
-            raise RuntimeStartError(str(e))
-        except (RuntimeError, OSError, ConnectionError) as e:
-            last = e
-        finally:
-            signal.alarm(0)
-            signal.signal(signal.SIGALRM, old)
-            try:
-                if comp is not None:
-                    comp.close()
-            except Exception:
-                pass
+            if comp is not None:
+                comp.close()
+        except Exception:
+            pass
+        if proc is not None:
             try:
                 proc.send_signal(signal.SIGINT)
                 proc.wait(timeout=3)
             except Exception:
                 proc.kill()
-    raise RuntimeStartError(str(last))
+        fcntl.flock(lockf, fcntl.LOCK_UN)
+        lockf.close()
 
 
-class RuntimeStartError(Exception):
-    pass
+def run_real_cases(specs, lock_wait_s):
+    """all 'real' PAM cases of a check: inputs built first, ONE runtime under the lock, oracles
+    evaluated after the lock is released"""
+    from bqskit.ir.circuit import Circuit  # noqa: F401
+    from bqskit.compiler.machine import MachineModel
+    from bqskit.qis.graph import CouplingGraph
+    jobs = []
+    for sp in specs:
+        model = MachineModel(sp['N'], CouplingGraph([tuple(e) for e in sp['edges']], sp['N']))
+        jobs.append((gen_pam_circuit(sp), model))
+    try:
+        prepared = real_perm_data_batch(jobs, lock_wait_s)
+    except RuntimeStartError as e:
+        return [{'spec': sp, 'skipped': 'bqskit runtime unavailable: ' + str(e)[:80],
+                 'viol': [], 'lines': [], 'expect': [], 'stats': {}} for sp in specs]
+    return [run_pam_case(sp, prepared=pr) for sp, pr in zip(specs, prepared)]
 
 
-def _unused():
-    return None
 
 
 def local_unitary(ops, k):
@@ -229,7 +262,7 @@ def o_pam_unroute(in_ops, out_items, iota, fm_expect_fn):
     return True, '', '', pi
 
 
-def run_pam_case(spec):
+def run_pam_case(spec, prepared=None):
     warnings.simplefilter('ignore')
     import logging
     logging.getLogger('bqskit').setLevel(logging.ERROR)
@@ -248,11 +281,7 @@ def run_pam_case(spec):
     model = MachineModel(N, CouplingGraph(edges, N))
     c = gen_pam_circuit(spec)
     if spec['source'] == 'real':
-        try:
-            c, block_datas = real_perm_data(c, model, spec['block'])
-        except RuntimeStartError as e:
-            res['skipped'] = 'bqskit runtime could not be started: ' + str(e)[:100]
-            return res
+        c, block_datas = prepared
     else:
         block_datas = fabricate(c)
     tab = H.GateTable(r)
